@@ -8,14 +8,14 @@ import vlib
 
 ECOS = ["npm", "cargo", "composer", "conan", "gem", "hex", "pypi", "nuget", "maven"]
 
-def vectors(run):
-    cfg = vlib.cfg_consts(E=set(ECOS)) + "INIT Init\nNEXT Next\nINVARIANT Emit\nINVARIANT RowSane\nCHECK_DEADLOCK FALSE\n"
+def vectors(run, wide=False):
+    cfg = vlib.cfg_consts(E=set(ECOS), XS={0, 1, 2, 9, 10, 99} if wide else {0, 1, 2, 9}, ZS={0, 3, 9, 10} if wide else {0, 3, 9}) + "INIT Init\nNEXT Next\nINVARIANT Emit\nINVARIANT RowSane\nCHECK_DEADLOCK FALSE\n"
     lines, st, dt = vlib.tlc(run, "MC_Shorthand", cfg, workers=8, timeout=900)
     return vlib.tagged(lines, "VEC")
 
 def check(run):
     exe = vlib.build_harness(run)
-    vecs = vectors(run)
+    vecs = vectors(run, wide=run.tier != "quick")
     jobs = [dict(v, k="short") for v in vecs]
     nsh = 8
     shards = [jobs[i::nsh] for i in range(nsh)]
@@ -53,7 +53,7 @@ def check(run):
     run.assumptions = ["the table of Shorthand.tla states each ecosystem's documented interval (sources cited in the module); "
                        "probe order is the 4-tuple order (numbers, then pre < final < post), which C03/C08/C09 bind to Compare",
                        "pre-release probes only just below a full base and, for npm, at the documented '-0' upper bound; composer probes stable; pypi probes final or post"]
-    return vlib.finish(run, rule="every row of the shorthand table (9 ecosystems x constructs x arities x bases {0,1,2,9}^2 x {0,3,9}) x boundary probes (base, below base, interior, last before upper bound, upper bound, pre-release of upper bound for npm, above)",
+    return vlib.finish(run, rule="every row of the shorthand table (9 ecosystems x constructs x arities x bases {0,1,2,9}^2 x {0,3,9}; thorough: {0,1,2,9,10,99}^2 x {0,3,9,10}) x boundary probes (base, below base, interior, last before upper bound, upper bound, pre-release of upper bound for npm, above)",
                        exhaustive=True, judged=judged, min_judged=1000)
 
 def replay(d):
